@@ -190,6 +190,22 @@ QTake(w, v, n) ==
           /\ th' = SetPc(t, IF n # 0 THEN P("yd1", pc.x, pc.y, n) ELSE [pc EXCEPT !.y = @ + 2])
   /\ UNCHANGED <<cur, cb, lk, stk, freeD, freeS, flS, nD, nS, nL, anw, tg, bad, sv>>
 
+\* steal through the work-stealing API with a decision callback: cand is the victim's oldest thread (0 if the
+\* queue is empty); it is removed only if the callback accepted it (n = cand), a declined candidate stays
+QTakeEx(w, v, cand, n) ==
+  /\ cb[w].k = "none" /\ got[w] = 0 /\ v \in W
+  /\ cand = (IF runq[v] = <<>> THEN 0 ELSE Head(runq[v]))
+  /\ n \in {0, cand}
+  /\ runq' = [runq EXCEPT ![v] = IF n = 0 THEN @ ELSE Tail(@)]
+  /\ IF cur[w] = 0
+     THEN /\ n # 0 /\ got' = [got EXCEPT ![w] = n] /\ th' = th
+     ELSE LET t == cur[w] pc == th[t].pc IN
+          /\ got' = got
+          /\ pc.k = "yd0" /\ ~StealDone(pc.y) /\ pc.x # 1
+          /\ (pc.x = 2 => PopDone(pc.y)) /\ (pc.x = 4 => ~PopDone(pc.y))
+          /\ th' = SetPc(t, IF n # 0 THEN P("yd1", pc.x, pc.y, n) ELSE [pc EXCEPT !.y = @ + 2])
+  /\ UNCHANGED <<cur, cb, lk, stk, freeD, freeS, flS, nD, nS, nL, anw, tg, bad, sv>>
+
 \* owner-side push: (a) create_1 callback pushes the parent, (b) parent-first create pushes the
 \* child, (c) a waker pushes a woken thread (sync primitives, stage "wk*")
 \* the agent executing library code on worker w: the running thread, or the worker itself
